@@ -195,10 +195,33 @@ def purity_cases(ctx, mods, rng, tier):
             ("unitary_from_angles", lambda a: LP.LAlg.unitary_from_angles(a[0]), [list(ph)]),
             ("angseq", lambda a: D.angseq(LP.LAlg.unitary_from_angles(a[0])), [list(ph)]),
             ("newton_Solver", lambda a: S.newton_Solver(a[0], 1), [tgt.copy()]),
+            # degenerate and unservable requests belong to "all call sequences" too: they may raise, but
+            # must leave arguments and module constants alone like any other call
+            ("angle_sequence:constant", lambda a: A.angle_sequence(a[0], eps=1e-4, suc=1 - 1e-4), [np.array([float(rng.uniform(0.05, 0.9))])]),
+            ("completion_from_root_finding:F:constant", lambda a: C.completion_from_root_finding(a[0], coef_type="F"), [np.array([float(rng.uniform(0.05, 0.9))])]),
+            ("completion_from_root_finding:P:constant", lambda a: C.completion_from_root_finding(a[0], coef_type="P"), [np.array([float(rng.uniform(0.05, 0.9))])]),
+            ("QuantumSignalProcessingPhases:constant", lambda a: A.QuantumSignalProcessingPhases(a[0], signal_operator="Wz"), [np.array([float(rng.uniform(0.05, 0.9))])]),
+            ("QuantumSignalProcessingPhases:infeasible", lambda a: A.QuantumSignalProcessingPhases(a[0], signal_operator="Wx"), [p * 2.5 / max(1e-9, np.abs(p).sum()) * (d + 1)]),
+            ("QuantumSignalProcessingPhases:mixed-parity", lambda a: A.QuantumSignalProcessingPhases(a[0]), [np.abs(cc) / np.abs(cc).sum() * 0.5]),
+            ("angle_sequence:norm>1", lambda a: A.angle_sequence(a[0], eps=1e-4, suc=1 - 1e-4), [Fc * 3.0]),
+            ("unitary_from_angles:single", lambda a: LP.LAlg.unitary_from_angles(a[0]), [[float(ph[0])]]),
         ]
-    for _ in range(nseq):
+    ledger = []     # (name, fn, args, RNG state, outcome, canonical result): revisited later, after other calls
+
+    def revisit():
+        for j in rng.permutation(len(ledger)):
+            name, fn, args, st, o, r = ledger[int(j)]
+            np.random.set_state(st)
+            o2, r2 = classify(lambda: fn(args))
+            ctx.count("purity:revisited-after-other-calls")
+            if o != o2 or (o == "returned" and r != canon(r2)):
+                ctx.violation("c19:history-dependent:" + name, "%s: same arguments and same state of numpy's global random generator, but a different result "
+                              "than earlier in the call sequence (the result depends on the calls made in between)" % name,
+                              {"call": name, "args": [np.asarray(a).tolist() if not np.iscomplexobj(np.asarray(a)) else "complex" for a in args]})
+        del ledger[:]
+    for seqno in range(nseq):
         calls = mk_calls()
-        order = rng.permutation(len(calls))[: int(rng.integers(2, 7))]
+        order = rng.permutation(len(calls))[: int(rng.integers(2, 9))]
         c0 = consts(LP)
         for i in order:
             name, fn, args = calls[int(i)]
@@ -219,6 +242,50 @@ def purity_cases(ctx, mods, rng, tier):
             o2, r2 = classify(lambda: fn(args))
             if o1 != o2 or (o1 == "returned" and canon(r1) != canon(r2)):
                 ctx.violation("c19:not-reproducible:" + name, "%s gives a different result with the same arguments and the same state of numpy's global random generator" % name, {"call": name})
+                continue
+            # the same request once more, now under a different generator state; it is revisited with
+            # that state after other calls have been made (results may depend on arguments and generator
+            # state only, never on what was called before)
+            if rng.random() < 0.6:
+                np.random.seed(int(rng.integers(0, 2 ** 31)))
+                st3 = np.random.get_state()
+                o3, r3 = classify(lambda: fn(args))
+                ledger.append((name, fn, args, st3, o3, canon(r3) if o3 == "returned" else None))
+        if seqno % 2 == 1 or seqno == nseq - 1:
+            revisit()
+
+
+def history_cases(ctx, mods, rng, tier):
+    """the randomised entry points, systematically: request X under generator state s1, X again under
+    s2, another request Y, then X under s2 once more: the two answers under s2 must coincide"""
+    A, C, R, LP, D, S = mods
+    n = 24 if tier == "quick" else 240
+    for _ in range(n):
+        d = int(rng.integers(2, 9))
+        p, q = (np.array(P.mono_from_cheb(P.cheb_vector(rng, d, 0.6))) for _ in range(2))
+        Fc, Fq = (rng.normal(size=d + 1) for _ in range(2))
+        Fc, Fq = Fc / np.abs(Fc).sum() * 0.6, Fq / np.abs(Fq).sum() * 0.6
+        so = str(rng.choice(["Wx", "Wz"]))
+        name, f, x, y = [
+            ("QuantumSignalProcessingPhases", lambda a: A.QuantumSignalProcessingPhases(a, signal_operator=so), p, q),
+            ("angle_sequence", lambda a: A.angle_sequence(a, eps=1e-4, suc=1 - 1e-4), Fc, Fq),
+            ("completion_from_root_finding:F", lambda a: C.completion_from_root_finding(a, coef_type="F"), Fc, Fq),
+        ][int(rng.integers(0, 3))]
+        s1, s2 = (int(v) for v in rng.integers(0, 2 ** 31, size=2))
+        np.random.seed(s1); classify(lambda: f(x.copy()))
+        np.random.seed(s2); ob, rb = classify(lambda: f(x.copy()))
+        if rng.random() < 0.7:
+            classify(lambda: f(y.copy()))
+        np.random.seed(s2); oc, rc = classify(lambda: f(x.copy()))
+        np.random.seed(s2); classify(lambda: f(y.copy()))
+        np.random.seed(s2); od, rd = classify(lambda: f(x.copy()))
+        ctx.count("history:" + name)
+        ctx.case(["history", name, x.tolist(), y.tolist(), s1, s2], True, {"call": name, "pattern": "X@s1 X@s2 [Y] X@s2 Y@s2 X@s2"})
+        for o2, r2 in ((oc, rc), (od, rd)):
+            if ob != o2 or (ob == "returned" and canon(rb) != canon(r2)):
+                ctx.violation("c19:history-dependent:" + name, "%s: same arguments and same state of numpy's global random generator, but the answer depends on the calls made before" % name,
+                              {"call": name, "x": x.tolist(), "y": y.tolist(), "numpy_seeds": [s1, s2], "signal_operator": so})
+                break
 
 
 def run(tier, seed):
@@ -233,11 +300,12 @@ def run(tier, seed):
     np.random.seed(int(seed) % (2 ** 31))
     error_cases(ctx, A, C, R, ctx.rng, tier)
     purity_cases(ctx, (A, C, R, LP, D, S), ctx.rng, tier)
+    history_cases(ctx, (A, C, R, LP, D, S), ctx.rng, tier)
     ctx.assumptions = ["purity (arguments, module constants, reproducibility) is a property of the Python runtime: decided by before/after snapshots on sampled call sequences, not by a theorem"]
     return ctx.finish(
         rule="infeasible real polynomials of degree 1..30 (scaled past 1 / locally above 1 / all roots on the unit circle) x {Wx,Wz} x forced seeds; mixed parity; "
              "a cross product of option strings against the decision-logic model; random call sequences (2-6 calls) of 14 public entry points with byte-level "
-             "snapshots and replays under the same RNG state; distinct = distinct (call, arguments)")
+             "snapshots, replays under the same RNG state and revisits after other calls (X@s1 X@s2 [Y] X@s2 patterns for the randomised entry points); distinct = distinct (call, arguments)")
 
 
 def replay(path):
